@@ -622,7 +622,7 @@ def rule_escape_siblings(ctx):
         while to[0] in ("ref", "deref"):
             to = peel(to[1])
         ok_ascii = pat_ == '"\\\\ "' and to[0] == "constx" and to[1] == '" "'
-    elif kinds == ["split", "split_once"]:
+    elif kinds in (["split", "split_once"], ["split"], ["split_once"]):
         ok_ascii = all(pat_ == '"\\\\ "' for _, pat_, _, _ in lits)
         sp_push = [bi for bi, t in fn.calls(lambda t: callee(t).endswith("String::push")) if fn.const_of_operand(t["args"][1]) == 32]
         ok_ascii = ok_ascii and bool(sp_push)
@@ -687,6 +687,8 @@ def rule_escape_siblings(ctx):
             return int(e[1])
         if e[0] == "free":
             return st.get(e[1]) if e[1] in flags else None
+        if e[0] == "arg" and e[2] == "escape_whitespace":
+            return 1        # the transducer is extracted for escape_whitespace = true (the parse / Pattern::new case)
         if e[0] == "un" and e[1] == "Not":
             v = val(e[2], cls, st)
             return None if v is None else int(not v)
